@@ -438,6 +438,15 @@ func (n *Node) Step(e interface{}) (out Out) {
 					buf = make([]byte, 1<<20)
 				}
 				if !strings.Contains(string(buf[:runtime.Stack(buf, true)]), ").broadcastSignature.func") {
+					// no sender left: whatever it sent is in the queue by now (it may have finished between the
+					// receive attempt above and the inspection)
+					select {
+					case lb := <-n.ObsvC:
+						n.Pending = append(n.Pending, lb)
+						out.Loopback++
+						got = true
+					default:
+					}
 					break
 				}
 			}
